@@ -180,7 +180,7 @@ class SimpleTypeChecker(walkers.DagWalker):
     def walk_bv_rotate(self, formula: FNode, args: List[PySMTType], **kwargs) -> Optional[PySMTType]:
         #pylint: disable=unused-argument
         target_width = formula.bv_width()
-        if target_width < formula.bv_rotation_step() or target_width < 0:
+        if target_width < formula.bv_rotation_step() or formula.bv_rotation_step() < 0:
             return None
         if target_width != cast(types._BVType, args[0]).width:
             return None
